@@ -2,7 +2,7 @@
    nolinks, good_comp), in the form Props/C16.v states them. *)
 From Coq Require Import List String Ascii Bool Arith ZArith.
 From Helm Require Import Chart.Paths Chart.PathsProofs Chart.PathFns Chart.PathFnsProofs
-  Chart.Archive Chart.Lock Chart.FsTree Chart.FsTreeProofs Chart.FsLockProofs.
+  Chart.Archive Chart.Lock Chart.FsTree Chart.FsTreeProofs Chart.FsLockProofs Gen.SecureJoinLib.
 Import ListNotations.
 Local Open Scope string_scope.
 
@@ -81,3 +81,8 @@ Lemma cleanjoin2_example :
   clean_join2 "/" "a\b" = inr "/a/b" /\ clean_join2 "." "a" = inr "a" /\
   clean_join2 "/r/" "c:\x" = inl CJ2Colon /\ clean_join2 "../r" "a" = inl CJ2Root.
 Proof. repeat split; vm_compute; reflexivity. Qed.
+
+(* the library the model was transcribed from is the library Helm is built against *)
+Lemma securejoin_source :
+  sj_lib_max_symlinks = Z.of_nat sj_max_links /\ sj_lib_join_sha256 = sj_transcribed_sha256.
+Proof. split; reflexivity. Qed.
